@@ -152,6 +152,23 @@ def check_write(case):
             elif a != b:
                 raise Failure(f"other-state-changed:{'same-vector' if (dd == d and vn == v['name']) else 'other-vector' if dd == d else 'other-device'}", f"{where}: {key} changed from {b!r} to {a!r}")
         if kind == "Switch" and v.get("rule") != "AnyOfMany":
+            # what "the submitted values, subject only to the switch rule" means, applied in the order sent:
+            # On switches every other switch Off; Off is taken, except that OneOfMany keeps its last On switch On
+            model = {e["name"]: before[(d, v["name"], e["name"])] for e in v["elements"]}
+            for n_, val_ in order:
+                if val_ == "On":
+                    for k_ in model:
+                        model[k_] = "Off"
+                    model[n_] = "On"
+                elif v["rule"] == "OneOfMany" and not any(x == "On" for k_, x in model.items() if k_ != n_):
+                    model[n_] = "On"
+                else:
+                    model[n_] = "Off"
+            if sum(1 for x in model.values() if x == "On") <= 1 and sum(1 for e in v["elements"] if before[(d, v["name"], e["name"])] == "On") <= 1:
+                for n_, want_ in model.items():
+                    got_ = after[(d, v["name"], n_)]
+                    if got_ != want_:
+                        raise Failure(f"switch-write-not-applied:{v['rule']}", f"{where}: {n_} is {got_}, the rule applied to the submitted values gives {want_} (before: { {e['name']: before[(d, v['name'], e['name'])] for e in v['elements']} })")
             names = [e["name"] for e in v["elements"]]
             on_before = sum(1 for n in names if before[(d, v["name"], n)] == "On")
             on_after = [n for n in names if after[(d, v["name"], n)] == "On"]
